@@ -30,7 +30,6 @@ import (
 	"github.com/nuts-foundation/nuts-node/audit"
 	"github.com/nuts-foundation/nuts-node/auth/services"
 	nutsCrypto "github.com/nuts-foundation/nuts-node/crypto"
-	"github.com/nuts-foundation/nuts-node/crypto/jwx"
 	"github.com/nuts-foundation/nuts-node/didman"
 	"github.com/nuts-foundation/nuts-node/jsonld"
 	"github.com/nuts-foundation/nuts-node/vcr"
@@ -140,7 +139,7 @@ func c17AzRun(x *h.Ctx, c c17AzCase) {
 
 	// who is who: the victim is the party whose key is the right one for this entry point
 	victimDID, nodeKid := c17AzNodeDID, c17AzNodeDID+"#key-1"
-	w := jose.World{KeyRef: "kid", Allowed: jwx.SupportedAlgorithmsAsStrings(), IdentityBound: true, Near: c.V.Near,
+	w := jose.World{KeyRef: "kid", Allowed: jose.NodeAllowed, IdentityBound: true, Near: c.V.Near,
 		Header: jose.Header{jose.Str("typ", "JWT")}}
 	if entry == "bearer" {
 		victimDID = c17AzRequesterDID
